@@ -547,10 +547,16 @@ func hostileCommands(rng *rand.Rand, tr *vk.Trace, n int, env *vk.Env) {
 		default:
 			g.AppendLiteral(g.Literal("tp").AppendArgument(g.Argument("x", command.StringParser(1)).AppendArgument(g.Argument("y", mode).HandleFunc(ok)).HandleFunc(ok)).HandleFunc(ok))
 		}
-		for k := 0; k < 60; k++ {
+		tails := []string{`"`, `"a`, `"abc\`, `"\`, `"a\"`, `"a\\`, `"a\\"`, `"a" "b\`, `a "b\`, `"a\" b\`, `""`, `"" "`, `\`, `a\`}
+		for k := 0; k < 60+2*len(tails); k++ {
 			var line string
-			for j := rng.Intn(7); j > 0; j-- {
-				line += alphabet[rng.Intn(len(alphabet))]
+			if k >= 60 {
+				// a literal of the graph followed by a phrase that opens a quote and stops inside it / inside an escape
+				line = []string{"a ", "tp "}[(k-60)%2] + tails[(k-60)/2]
+			} else {
+				for j := rng.Intn(7); j > 0; j-- {
+					line += alphabet[rng.Intn(len(alphabet))]
+				}
 			}
 			ev := hostileEv{K: "hostile", Decoder: fmt.Sprintf("command.Graph.Execute(graph%d)", gi%4), Class: "other", Sub: "command-line", Line: line, Input: []int{}}
 			done := make(chan struct{})
